@@ -122,6 +122,42 @@ def _check_closed_forms(model, u, w, N, D, stats, where):
         got = float(model.expected_degree(per_node=False))
         if abs(got - deg.mean()) > 1e-9 * max(1e-12, abs(deg.mean())) + 1e-12:
             raise Violation("C15/closed-form/expected_degree[average]", {"where": where, "library": got, "definition": float(deg.mean())})
+        # the same for size selections that do not start at 2
+        sels = [np.arange(3, D + 1)] if D >= 3 else []
+        sels += [int(d) for d in range(2, D + 1)]
+        if D >= 4:
+            sels.append(np.array([2, D]))
+        for sel in sels:
+            sizes = {int(sel)} if isinstance(sel, int) else {int(x) for x in sel}
+            degs = np.zeros(N)
+            for m, e in zip(mean, edges):
+                if len(e) in sizes:
+                    for i in e:
+                        degs[i] += m
+            got = np.asarray(model.expected_degree(per_node=True, d=sel)).ravel()
+            if not np.allclose(got, degs, rtol=1e-9, atol=1e-12):
+                raise Violation("C15/closed-form/expected_degree[per_node,d]", {"where": where, "d": short(sel), "library": short(got.tolist()), "definition": short(degs.tolist())})
+            got = float(model.expected_degree(per_node=False, d=sel))
+            if abs(got - degs.mean()) > 1e-9 * max(1e-12, abs(degs.mean())) + 1e-12:
+                raise Violation("C15/closed-form/expected_degree[average,d]", {"where": where, "d": short(sel), "library": got, "definition": float(degs.mean())})
+        if D >= 3:
+            degs = np.zeros(N)
+            for m, e in zip(mean, edges):
+                if len(e) >= 3:
+                    for i in e:
+                        degs[i] += m
+            got = np.asarray(model.degree_sequence(include_dyadic=False, expected=True)).ravel()
+            if not np.allclose(got, degs, rtol=1e-9, atol=1e-12):
+                raise Violation("C15/closed-form/degree_sequence[expected,no-dyadic]", {"where": where, "library": short(got.tolist()), "definition": short(degs.tolist())})
+            dims3 = model.dimension_sequence(include_dyadic=False, expected=True)
+            want3 = {}
+            for m, e in zip(mean, edges):
+                if len(e) >= 3:
+                    want3[len(e)] = want3.get(len(e), 0.0) + m
+            want3 = {d: v for d, v in want3.items() if v > 0}
+            if sorted(int(k) for k in dims3) != sorted(want3) or any(
+                    abs(float(dims3[k]) - want3[int(k)]) > 1e-9 * max(1e-12, want3[int(k)]) for k in dims3):
+                raise Violation("C15/closed-form/dimension_sequence[no-dyadic]", {"where": where, "library": short({int(k): float(v) for k, v in dims3.items()}), "definition": short(want3)})
         dims = model.dimension_sequence(include_dyadic=True, expected=True)
         want = {}
         for m, e in zip(mean, edges):
